@@ -97,6 +97,8 @@ def oblig(st, ci, kind, ok, detail):
 def count_of(st, nbytes, esz):
     q = lin(nbytes).div_sym(esz)
     if q is None:
+        q = st.F.canon(nbytes).div_sym(esz)
+    if q is None:
         dec = st.decomp.get((lin(nbytes), lin(esz)))
         if dec and st.F.prove_eq(dec[1]):
             return dec[0]
@@ -106,7 +108,7 @@ def count_of(st, nbytes, esz):
 
 def decompose(st, total, chunk):
     """total = k*chunk + d, 0 <= d < chunk; memoised per state."""
-    total = lin(total)
+    total = st.F.canon(lin(total))
     chunk = lin(chunk)
     key = (total, chunk)
     if key in st.decomp:
@@ -124,6 +126,15 @@ def decompose(st, total, chunk):
                 return st.decomp[key]
     k = Lin.sym(T.fresh("k"))
     d = Lin.sym(T.fresh("d"))
+    # definitional equality: if the total contains a plain symbol with coefficient +-1 (a length
+    # variable), later forms are canonicalised by replacing it with its decomposition
+    gen = st.F.rewrites.setdefault("__generated__", set())
+    gen.update((k.t[0][0][0], d.t[0][0][0]))
+    for m, co in total.t:
+        if len(m) == 1 and co in (1, -1) and m[0] not in st.F.rewrites and not m[0].startswith("$") and m[0] not in chunk.symbols() and m[0] not in gen:
+            rest = total - Lin(0, ((m, co),))
+            st.F.rewrites[m[0]] = (k * chunk + d - rest) * co
+            break
     st.F.add_eq(total - k * chunk - d)
     st.F.add_ge(k)
     st.F.add_ge(d)
@@ -455,7 +466,7 @@ def iter_next(ip, st, ci):
     key = (fr.id, ci["bb"])
     mode = st.loopmode.get(key)
     if mode is None:
-        raise Undecided("Iterator::next outside a recognised loop header")
+        return _iter_step(ip, st, ci, False)
     if mode[0] == "probe":
         it = ip.load(st, tg_of(ci["args"][0]))
         raise LoopProbe(it)
@@ -468,6 +479,38 @@ def iter_next(ip, st, ci):
     if mode[0] == "done":
         return vnone()
     raise Undecided("loop mode")
+
+
+def _iter_step(ip, st, ci, back):
+    """one explicit `next()` / `next_back()` outside a loop header: yields the first / last element
+    (None when empty) and leaves the iterator as a window over the remaining elements."""
+    tg = tg_of(ci["args"][0])
+    it = ip.load(st, tg)
+    while it[0] == "iter" and it[1] == "ref":
+        tg = it[2]
+        it = ip.load(st, tg)
+    if it[0] != "iter":
+        raise Undecided("next on %s" % it[0])
+    N = iter_count(ip, st, it)
+    out = []
+    for s2, nonempty in fork_on(st, ("ge", N - 1)):
+        if not nonempty:
+            out.append((s2, vnone()))
+            continue
+        idx = (N - 1) if back else ZERO
+        for s3, e in iter_elem_multi(ip, s2, it, idx):
+            if it[1] == "win":
+                rest = ("iter", "win", it[2], it[3] + (ZERO if back else ONE), N - 1)
+            else:
+                rest = ("iter", "win", it, ZERO if back else ONE, N - 1)
+            ip.store(s3, tg, rest)
+            out.append((s3, vsome(e)))
+    return out
+
+
+@prim("DoubleEndedIterator::next_back")
+def iter_next_back(ip, st, ci):
+    return _iter_step(ip, st, ci, True)
 
 
 class LoopProbe(Exception):
@@ -1276,6 +1319,8 @@ def iter_count(ip, st, it):
         return it[5]
     if k == "once":
         return ONE
+    if k == "win":
+        return it[4]
     if k == "zip":
         a = iter_count(ip, st, it[2])
         b = iter_count(ip, st, it[3])
@@ -1321,7 +1366,7 @@ def iter_elem_multi(ip, st, it, i):
         return [(st, vref(ip.br(it[2], i * it[4], it[4])))]
     if k == "once":
         return [(st, it[2])]
-    if k == "skip":
+    if k in ("skip", "win"):
         return iter_elem_multi(ip, st, it[2], i + it[3])
     if k == "take":
         return iter_elem_multi(ip, st, it[2], i)
